@@ -57,7 +57,9 @@ def main():
                      "kind_free_text": "own AST->VC generator (symbolic execution with loop invariants and callee contracts) over the functions re-extracted from /repo on every run; z3 5.1 in-process, cvc5 CLI as second opinion; bounded stand-ins labelled as such"}],
         "checks": checks,
         "not_applicable": na,
-        "notes": "Exit codes of ./check: 0 held, 1 violation (VIOLATION line), 2 undecided/out-of-subset, 3 checker error. Known findings: known_findings.json.",
+        "notes": "Exit codes of ./check: 0 held, 1 violation (VIOLATION line), 2 undecided/out-of-subset, 3 checker error. Known findings: known_findings.json (findings + 'fixed:' records). "
+                 "./check selftest differential-tests the engine's models against CPython and runs contract probes (not a property check). ./check Cnn --replay <file> re-runs a recorded violation. "
+                 "Seeded changes and what the checks report for them: seeded/*/detection.json (tools/run_all_seeds.py); DESIGN.md section 8 records levels, defects, false alarms and seeds.",
     }
     with open(os.path.join(ROOT, "MANIFEST.json"), "w") as f:
         json.dump(man, f, indent=1)
